@@ -214,16 +214,16 @@ impl<K: Shape, V: Shape, const N: usize> Model<K, V, N> {
 }
 
 /// `wf_weak` state: any len <= N, any content in the live prefix, nothing assumed
-/// about keys (duplicates allowed).
-pub fn any_map_weak<K: kani::Arbitrary, V: kani::Arbitrary, const N: usize>() -> Map<K, V, N> {
+/// about keys (duplicates allowed).  Slots beyond `len` are filled with arbitrary
+/// bytes too: that is what uninitialised / vacated memory is, and it makes every
+/// use of such a slot visible in the results (Kani itself would zero them).
+pub fn any_map_weak<K: Shape, V: Shape, const N: usize>() -> Map<K, V, N> {
     let mut m: Map<K, V, N> = Map::new();
     let len: usize = kani::any();
     kani::assume(len <= N);
     let mut i = 0;
     while i < N {
-        if i < len {
-            m.pairs[i] = MaybeUninit::new((kani::any(), kani::any()));
-        }
+        m.pairs[i] = MaybeUninit::new((kani::any(), kani::any()));
         i += 1;
     }
     m.len = len;
@@ -254,7 +254,7 @@ pub fn any_set<T: Shape, const N: usize>() -> Set<T, N> {
     set_of_map(any_map::<T, (), N>())
 }
 
-pub fn any_set_weak<T: kani::Arbitrary, const N: usize>() -> Set<T, N> {
+pub fn any_set_weak<T: Shape, const N: usize>() -> Set<T, N> {
     set_of_map(any_map_weak::<T, (), N>())
 }
 
